@@ -728,4 +728,8 @@ def gworld_from_json(g):
 
 def set_repr_hazard(text: str) -> bool:
     """a `str(...)` of a set inside a compared value: its element order is not part of the model"""
-    return "frozenset(" in text or "set(" in text or "{\'" in text or "{'" in text
+    if "frozenset(" in text or "set(" in text or "{\'" in text or "{'" in text:
+        return True
+    # "{17, -5, 295}": str() of a set of numbers / bytes inside a str value (canonical text: (s "{...}"))
+    import re
+    return any("{" in m and ", " in m for m in re.findall(r'\(s "((?:[^"\\]|\\.)*)"\)', text))
